@@ -58,7 +58,7 @@ CHECKS = {
             "For every template and tree: C18_frame (everything that is not a factory template path is untouched), C18_restores, C18_blacklist_created, C18_idempotent, C18_succeeds (every regular tree), crashStates_similar; instantiated with the repository's embedded template (Gen.templateShape, regenerated and compared with the real embed.FS on every run): C18_template_facts, C18_repo, C18_crash_repo (a later run on whatever an interrupted run left restores the factory files and keeps the user files), C18_fresh_repo (absent directory: complete tree).",
             "Trusted: per-syscall behaviour of the filesystem; a crash inside write(2) is an arbitrary prefix; permissions not varied (root)."),
     "C19": ("Lean 4 proof over a transition-system model of the watcher goroutine + source facts regenerated from monitor.go + differential runs of the real watcher on inotify",
-            "C19_accounting / C19_silent (notifications ≤ write events on names with the suffix, any schedule), C19_take_offers / C19_no_take_while_offering, C19_stops (guarded hand-off: the goroutine returns after cancellation without a reader, from every state), C19_stuck_unguarded (witness for the repaired defect), C19_source_facts (suffix \".toml\", hand-off selected against ctx.Done(), Op test).",
+            "C19_accounting / C19_silent (notifications ≤ write events on names with the suffix, any schedule), C19_take_offers / C19_no_take_while_offering, C19_stops (guarded hand-off: the goroutine returns after cancellation without a reader, from every state), C19_watcher_stops (and the fsnotify watcher is closed: closer goroutine, regenerated fact), C19_stuck_unguarded (witness for the repaired defect), C19_source_facts (suffix \".toml\", hand-off selected against ctx.Done(), Op test).",
             "Trusted/partial: the kernel reports in-place modification as IN_MODIFY and fsnotify maps it to Write; timing is sampled (500 ms / 1 s limits); Go channel and select semantics as written in the model."),
     "C20": ("Lean 4 proof over Normalize model + differential correspondence on permuted handler lists",
             "C20_group_spec (the group of a location is exactly the handlers reporting it, in discovery order, and exists iff there is one), C20_keys_nodup (one group per location), C20_member, C20_members_same_phys, C20_partition_count, C20_type_rule (joystick if any member is joystick-like, else keyboard if any is a standard keyboard, else mouse iff a single mouse handler, else not playable), C20_order (any two discovery orders give the same members up to order and the same type, location by location), C20_order_id_partial (the ID is order-independent when the handlers of a location report the same ID), C20_handler_type_set (HandlerType depends only on the set of capability types).",
